@@ -467,7 +467,11 @@ TRACE_CATS = ['*T*', '*', '*ICH*', '*U*', '*?*', '0', '*EXP*', '*RNR*']
 
 
 def trace_tree(rng):
-    pools = gen.Pools(cats=CATS, pos=['NN', 'VBD', 'DT', 'IN', 'WP', 'JJ'])
+    pools = gen.Pools(cats=CATS, pos=['NN', 'VBD', 'DT', 'IN', 'WP', 'JJ'],
+                      words=gen.WORDS_ASCII + (
+                          # ordinary tokens that look like traces
+                          ['*', '**', '*not*', '*T*-1', '0', '*U*']
+                          if rng.random() < 0.4 else []))
     spec = base_tree(rng, pools, 18)
     toks = gen.tokens_of(spec['root'])
     tracemap = {}
